@@ -474,7 +474,11 @@ func (e *env) runProcess(shapes []Shape, children int) {
 		return
 	}
 	own := map[string]string{}
+	builtAt := int64(0)
 	for _, s := range shapes {
+		if s.TS0 != 0 {
+			builtAt = time.Now().Unix()
+		}
 		d, err := fullDigest(e.c, build(s))
 		e.r.Count("full_digest_evals", 1)
 		if err != nil {
@@ -488,6 +492,9 @@ func (e *env) runProcess(shapes []Shape, children int) {
 		if err != nil || d2 != d {
 			e.violate(Case{Kind: "process", Shape: s}, "store-differs:same-process", "configuration %s: raw store after start %s, second time %s (%v)", s.Name(), d, d2, err)
 		}
+	}
+	for builtAt != 0 && time.Now().Unix() <= builtAt {
+		time.Sleep(50 * time.Millisecond) // at most one second; never part of a verdict, only of when the children start
 	}
 	for k := 0; k < children; k++ {
 		got := spawn(e.c, shapes, k)
@@ -743,6 +750,10 @@ func (e *env) runPair(a, b namedCfg, height int) {
 var degenerate = []Shape{
 	{Acc: 2, Tok: 1, Pil: 0, Fus: 0, Swap: 0, Spork: 0, Del: 0, Leg: 0},
 	{Acc: 2, Tok: 1, Pil: 0, Fus: 2, Swap: 2, Spork: 2, Del: 0, Leg: 2},
+	// configurations that name no genesis time: the genesis is still a function of the configuration alone (the child
+	// processes that rebuild it are started in a later wall-clock second than the one in which this process built it)
+	{Acc: 2, Tok: 1, Pil: 2, Fus: 0, Swap: 0, Spork: 0, Del: 2, Leg: 0, TS0: 1},
+	{Acc: 4, Tok: 2, Pil: 3, Fus: 3, Swap: 2, Spork: 2, Del: 2, Leg: 2, TS0: 1},
 }
 
 func shapesFor(thorough bool) []Shape {
